@@ -54,6 +54,11 @@ FIND_CRASH = "C13-conditional-first-crash"
 FIND_NESTED = "C13-nested-pop-takes-callee-signature"
 
 NAMES = ["a", "b", "c", "d", "e", "f", "g", "h"]
+KWNAMES = ["kwargs", "kw", "options"]       # names of the ** variable; they are also parameter names of other callables
+PARAM_NAMES = NAMES + ["kwargs", "kw"]
+# module-level constants of the rendered modules: truthy / falsy values of several kinds (None, 0, '' are constants too)
+LIVE_TESTS = ["FLAG_T", "not FLAG_F", "FLAG_S", "not FLAG_N", "FLAG_1", "not FLAG_Z", "not FLAG_E"]
+DEAD_TESTS = ["FLAG_F", "not FLAG_T", "FLAG_N", "not FLAG_S", "FLAG_Z", "not FLAG_1", "FLAG_E"]
 FRESH = "zz_fresh"
 TYPES = ["int", "str", "float", "bool", "Optional[int]", "List[int]"]
 TYPE_DEFAULTS = {
@@ -103,7 +108,7 @@ def gen_param(rng, name, required_ok, kind):
 
 def gen_params(rng, nmax=3, avoid=()):
     n = rng.choice([0, 1, 1, 2, 2, 3][: nmax + 3])
-    pool = [x for x in NAMES if x not in avoid]
+    pool = [x for x in PARAM_NAMES if x not in avoid]
     names = rng.sample(pool, min(n, len(pool)))
     n_ko = 0
     if names and rng.random() < 0.3:
@@ -164,7 +169,7 @@ def static_init(entries, bases_of, idx):
 
 def gen_reads(rng, uses, own, p_get):
     for _ in range(rng.choice([0, 0, 1, 1, 2])):
-        nm = rng.choice([x for x in NAMES if x not in own] or [FRESH + "2"])
+        nm = rng.choice([x for x in PARAM_NAMES if x not in own] or [FRESH + "2"])
         kind = "get" if rng.random() < p_get else "pop"
         uses.append({"g": "a", "u": {kind: [nm, rng.choice(POP_DEFAULTS)]}})
 
@@ -247,10 +252,15 @@ def gen_forward(rng, entries, bases_of, self_idx, where, allow_attr=False):
     return {"call": {"t": ["entry", i], "k": k, "given": given}}
 
 
+def kwname_of(c):
+    return c.get("kwname", "kwargs")
+
+
 def gen_callable(rng, entries, bases_of, self_idx, where, knobs):
-    params = gen_params(rng)
+    kwname = rng.choice(["kwargs", "kwargs", "kwargs", "kw", "options"])
+    params = gen_params(rng, avoid=(kwname,))
     varkw = rng.random() < (0.8 if where in ("init", "cmeth") else 0.6)
-    c = {"params": params, "varkw": varkw, "uses": []}
+    c = {"params": params, "varkw": varkw, "uses": [], "kwname": kwname}
     if not varkw:
         return c
     own = own_named(c)
@@ -281,10 +291,11 @@ def gen_callable(rng, entries, bases_of, self_idx, where, knobs):
         live = rng.random() < 0.5
         fw1 = gen_forward(rng, entries, bases_of, self_idx, "meth" if where == "init" else where)
         fw2 = gen_forward(rng, entries, bases_of, self_idx, where)
+        t = rng.randrange(len(LIVE_TESTS))
         if fw1 is not None:
-            uses.append({"g": {"const": live}, "u": fw1})
+            uses.append({"g": {"const": live, "test": t}, "u": fw1})
         if fw2 is not None:
-            uses.append({"g": {"const": not live}, "u": fw2})
+            uses.append({"g": {"const": not live, "test": t}, "u": fw2})
         return c
     fw = gen_forward(rng, entries, bases_of, self_idx, where, allow_attr=True)
     if fw is not None:
@@ -363,7 +374,7 @@ def render_sig(c, first):
             s += (" = " if p["ty"] is not None else "=") + lit(p["dflt"][1])
         parts.append(s)
     if c["varkw"]:
-        parts.append("**kwargs")
+        parts.append("**" + kwname_of(c))
     return ", ".join(parts)
 
 
@@ -375,14 +386,14 @@ def nested_of(h):
     return out
 
 
-def render_read(x):
-    e = "kwargs.%s(%r, %s)" % (x["kind"], x["name"], lit(x["dflt"]))
+def render_read(x, kwn="kwargs"):
+    e = "%s.%s(%r, %s)" % (kwn, x["kind"], x["name"], lit(x["dflt"]))
     return {"plain": e, "mul": "(%s * 4)" % e, "str": "str(%s)" % e, "list": "[%s]" % e}[x.get("wrap", "plain")]
 
 
-def render_args(k, given, nested=None):
-    slot = {tuple(x["slot"]): render_read(x) for x in (nested or [])}
-    return ", ".join([slot.get(("pos", i), "1") for i in range(k)] + ["%s=%s" % (g, slot.get(("kw", g), "1")) for g in given] + ["**kwargs"])
+def render_args(k, given, nested=None, kwn="kwargs"):
+    slot = {tuple(x["slot"]): render_read(x, kwn) for x in (nested or [])}
+    return ", ".join([slot.get(("pos", i), "1") for i in range(k)] + ["%s=%s" % (g, slot.get(("kw", g), "1")) for g in given] + ["**" + kwn])
 
 
 def add_nested(rng, u, own, p_get):
@@ -415,27 +426,27 @@ def callee_expr(prog, t):
     raise MachineryError("no expression for target %r" % (t,))
 
 
-def render_use(u, prog, self_idx, n):
+def render_use(u, prog, self_idx, n, kwn="kwargs"):
     if "pop" in u:
-        return "v%d = kwargs.pop(%r, %s)" % (n, u["pop"][0], lit(u["pop"][1]))
+        return "v%d = %s.pop(%r, %s)" % (n, kwn, u["pop"][0], lit(u["pop"][1]))
     if "get" in u:
-        return "v%d = kwargs.get(%r, %s)" % (n, u["get"][0], lit(u["get"][1]))
+        return "v%d = %s.get(%r, %s)" % (n, kwn, u["get"][0], lit(u["get"][1]))
     if "super" in u:
         s = u["super"]
         sup = "super()" if s["frm"] is None else "super(%s, self)" % prog["entries"][s["frm"]]["name"]
-        return "%s.__init__(%s)" % (sup, render_args(s["k"], s["given"], s.get("nested")))
+        return "%s.__init__(%s)" % (sup, render_args(s["k"], s["given"], s.get("nested"), kwn))
     if "attr" in u:
         # **kwargs kept in an attribute and forwarded by a method/property, which is exercised right away
         a = u["attr"]
-        store = ("self._kw%d = kwargs" % self_idx) if a["how"] == "assign" else ("self._kw%d = dict()\nself._kw%d.update(**kwargs)" % (self_idx, self_idx))
+        store = ("self._kw%d = %s" % (self_idx, kwn)) if a["how"] == "assign" else ("self._kw%d = dict()\nself._kw%d.update(**%s)" % (self_idx, self_idx, kwn))
         return store + ("\nself.use%d()" % self_idx if a["via"] == "method" else "\nv%d = self.use%d" % (n, self_idx))
     c = u["call"]
     t = c["t"]
     if t[0] in ("entry", "cmeth"):
-        return "%s(%s)" % (callee_expr(prog, t), render_args(c["k"], c["given"], c.get("nested")))
+        return "%s(%s)" % (callee_expr(prog, t), render_args(c["k"], c["given"], c.get("nested"), kwn))
     if t[0] == "self":
-        return "self.m%d_%d(%s)" % (self_idx, t[1], render_args(c["k"], c["given"], c.get("nested")))
-    return "return cls(%s)" % render_args(c["k"], c["given"], c.get("nested"))
+        return "self.m%d_%d(%s)" % (self_idx, t[1], render_args(c["k"], c["given"], c.get("nested"), kwn))
+    return "return cls(%s)" % render_args(c["k"], c["given"], c.get("nested"), kwn)
 
 
 def attr_use_of(c):
@@ -446,28 +457,29 @@ def attr_use_of(c):
 
 
 def render_body(c, prog, self_idx, tag, ind):
-    out = [ind + "_T(%r, locals())" % tag]
+    kwn = kwname_of(c)
+    out = [ind + ("_T(%r, locals(), %r)" % (tag, kwn) if c["varkw"] else "_T(%r, locals())" % tag)]
     uses = c["uses"] if c["varkw"] else []
     i, n = 0, 0
     branch_ids = sorted({g["g"]["branch"] for g in uses if isinstance(g["g"], dict) and "branch" in g["g"]})
     while i < len(uses):
         g = uses[i]
         if g["g"] == "a":
-            out.extend(ind + l for l in render_use(g["u"], prog, self_idx, n).split("\n"))
+            out.extend(ind + l for l in render_use(g["u"], prog, self_idx, n, kwn).split("\n"))
             i += 1
             n += 1
         elif "const" in g["g"]:
             live = g["g"]["const"]
             nxt = uses[i + 1] if i + 1 < len(uses) else None
-            neg = (n + len(tag)) % 2 == 1
-            test = ("not FLAG_F" if neg else "FLAG_T") if live else ("not FLAG_T" if neg else "FLAG_F")
+            ti = g["g"].get("test", n + len(tag)) % len(LIVE_TESTS)
+            test = LIVE_TESTS[ti] if live else DEAD_TESTS[ti]
             out.append(ind + "if %s:" % test)
-            out.append(ind + "    " + render_use(g["u"], prog, self_idx, n))
+            out.append(ind + "    " + render_use(g["u"], prog, self_idx, n, kwn))
             n += 1
             i += 1
             if nxt is not None and isinstance(nxt["g"], dict) and nxt["g"].get("const") == (not live):
                 out.append(ind + "else:")
-                out.append(ind + "    " + render_use(nxt["u"], prog, self_idx, n))
+                out.append(ind + "    " + render_use(nxt["u"], prog, self_idx, n, kwn))
                 n += 1
                 i += 1
         else:
@@ -477,7 +489,7 @@ def render_body(c, prog, self_idx, tag, ind):
                 out.append(ind + head)
                 stm = [x for x in uses[i:] if isinstance(x["g"], dict) and x["g"].get("branch") == b]
                 for x in stm:
-                    out.append(ind + "    " + render_use(x["u"], prog, self_idx, n))
+                    out.append(ind + "    " + render_use(x["u"], prog, self_idx, n, kwn))
                     n += 1
                 if not stm:
                     out.append(ind + "    pass")
@@ -487,8 +499,9 @@ def render_body(c, prog, self_idx, tag, ind):
 
 
 def render(prog):
-    out = ["from typing import List, Optional", "", "FLAG_T = True", "FLAG_F = False", "_SEL = {}", "_TRACE = []", "_SENT = ['probe']", "", "",
-           "def _T(tag, loc):", "    kw = loc.get('kwargs')",
+    out = ["from typing import List, Optional", "", "FLAG_T = True", "FLAG_F = False", "FLAG_N = None", "FLAG_Z = 0", "FLAG_E = ''",
+           "FLAG_S = 'yes'", "FLAG_1 = 1", "_SEL = {}", "_TRACE = []", "_SENT = ['probe']", "", "",
+           "def _T(tag, loc, kwn=None):", "    kw = loc.get(kwn) if kwn else None",
            "    _TRACE.append((tag, None if kw is None else sorted(kw), sorted(k for k, v in loc.items() if v is _SENT),",
            "                   [] if kw is None else sorted(k for k, v in kw.items() if v is _SENT)))", "", ""]
     for idx, e in enumerate(prog["entries"]):
@@ -522,7 +535,7 @@ def render(prog):
                 out.append("    @property")
             out.append("    def use%d(self):" % idx)
             out.append("        _T(%r, locals())" % ("%s.use%d" % (e["name"], idx)))
-            out.append("        return %s(%s)" % (callee_expr(prog, au["t"]), render_args(au["k"], au["given"]).replace("**kwargs", "**self._kw%d" % idx)))
+            out.append("        return %s(%s)" % (callee_expr(prog, au["t"]), render_args(au["k"], au["given"], None, "self._kw%d" % idx)))
             out.append("")
         if empty:
             out.append("    pass")
